@@ -112,8 +112,8 @@ class Ctx:
             return []
         return json.loads(KNOWN_FINDINGS.read_text()).get("findings", [])
 
-    def finish(self, level: str, explanation: str, trusted_base=None, checker_cmd=None,
-               not_decided: str = "") -> int:
+    def split_known(self):
+        """(unlisted, listed) violations: listed = matched by a `known` entry of known_findings.json on (rule, file, function, key)"""
         known = [k for k in self._known() if k.get("status") == "known" and k.get("property") == self.prop]
         unlisted, listed = [], []
         for v in self.violations:
@@ -125,6 +125,11 @@ class Ctx:
                     hit = k
                     break
             (listed if hit else unlisted).append((v, hit))
+        return unlisted, listed
+
+    def finish(self, level: str, explanation: str, trusted_base=None, checker_cmd=None,
+               not_decided: str = "") -> int:
+        unlisted, listed = self.split_known()
 
         print(f"== {self.prop} tier={self.tier}: {len(self.instances)} rule instances over "
               f"{len(self.functions)} functions/artefacts, {len(self.rule_texts)} rules")
